@@ -40,7 +40,7 @@ import (
 	"strings"
 )
 
-const version = "hazards-v15"
+const version = "hazards-v16"
 
 var scopeDirs = []string{"app", "x", "adapter", "syscontracts", "types", "ibc"}
 
@@ -243,12 +243,20 @@ func main() {
 		if filepath.ToSlash(d) == ethPkgDir {
 			ethAnalysis(fset, asts, info, d)
 		}
+		pkgFuncs := map[types.Object]*ast.FuncDecl{}
+		for _, f := range asts {
+			for _, dd := range f.Decls {
+				if fd, isFd := dd.(*ast.FuncDecl); isFd && fd.Recv == nil && info.Defs[fd.Name] != nil {
+					pkgFuncs[info.Defs[fd.Name]] = fd
+				}
+			}
+		}
 		for _, f := range asts {
 			rel, ok := inv[f]
 			if !ok {
 				continue
 			}
-			w := &walker{fset: fset, info: info, file: rel, hz: hz, less: &lessMethods}
+			w := &walker{fset: fset, info: info, file: rel, hz: hz, less: &lessMethods, funcs: pkgFuncs}
 			w.walkFile(f)
 			sites = append(sites, w.sites...)
 			nRange += w.nRange
@@ -449,6 +457,7 @@ type walker struct {
 	vused  map[string]*types.Var
 	body   *ast.BlockStmt // body of the function declaration being walked
 	loop   *ast.RangeStmt // the range statement being translated (nil outside loopIR)
+	funcs  map[types.Object]*ast.FuncDecl // the package's functions (not methods), for comparators given by name
 	depth  int // nesting depth of loops inside the range body being translated (continue/break refer to the innermost)
 }
 
@@ -976,15 +985,146 @@ func (w *walker) isBuiltin(f ast.Expr, name string) bool {
 // stmtsIR translates a statement list; every statement outside the subset becomes SOther
 func (w *walker) stmtsIR(list []ast.Stmt) string {
 	var out []string
-	for _, s := range list {
-		out = append(out, w.stmtIR(s)...)
+	for i := 0; i < len(list); i++ {
+		if i+1 < len(list) {
+			if st := w.fillIR(list[i], list[i+1]); st != "" { // s[i] = e; i++
+				out = append(out, st)
+				i++
+				continue
+			}
+		}
+		out = append(out, w.stmtIR(list[i])...)
 	}
 	return coqList(out)
+}
+
+// fillIR: `s[i] = e; i++` inside the loop being translated, where s := make([]T, len(<ranged expression>)) and i := 0 are
+// defined in the function before the loop, i is written by nothing else in the function and read nowhere else in the
+// loop body, and s is not otherwise assigned: the loop fills the pre-sized slice in iteration order, which is what
+// appending to an empty slice does.  Anything short of that returns "" (the statements are then translated one by one:
+// an indexed store into a slice and a ++ are SOther).
+func (w *walker) fillIR(a, b ast.Stmt) string {
+	as, ok := a.(*ast.AssignStmt)
+	inc, ok2 := b.(*ast.IncDecStmt)
+	if !ok || !ok2 || w.loop == nil || w.body == nil || as.Tok != token.ASSIGN || len(as.Lhs) != 1 || len(as.Rhs) != 1 || inc.Tok != token.INC {
+		return ""
+	}
+	ix, ok := as.Lhs[0].(*ast.IndexExpr)
+	if !ok {
+		return ""
+	}
+	sid, ok := ix.X.(*ast.Ident)
+	iid, ok2 := ix.Index.(*ast.Ident)
+	cid, ok3 := inc.X.(*ast.Ident)
+	if !ok || !ok2 || !ok3 {
+		return ""
+	}
+	sobj, iobj := w.info.Uses[sid], w.info.Uses[iid]
+	if sobj == nil || iobj == nil || w.info.Uses[cid] != iobj {
+		return ""
+	}
+	if t := w.info.TypeOf(sid); t == nil {
+		return ""
+	} else if _, isSlice := t.Underlying().(*types.Slice); !isSlice {
+		return ""
+	}
+	// definitions and other uses
+	sOK, iOK := false, false
+	bad := false
+	ast.Inspect(w.body, func(m ast.Node) bool {
+		switch m := m.(type) {
+		case *ast.AssignStmt:
+			for k, l := range m.Lhs {
+				lid, isId := l.(*ast.Ident)
+				if !isId {
+					continue
+				}
+				if m.Tok == token.DEFINE && len(m.Lhs) == len(m.Rhs) {
+					if w.info.Defs[lid] == sobj { // s := make([]T, len(X)) with X the ranged expression
+						if mk, isCall := m.Rhs[k].(*ast.CallExpr); isCall && w.isBuiltin(mk.Fun, "make") && len(mk.Args) == 2 {
+							if ln, isLen := mk.Args[1].(*ast.CallExpr); isLen && w.isBuiltin(ln.Fun, "len") && len(ln.Args) == 1 &&
+								w.norm(ln.Args[0]) == w.norm(w.loop.X) && m.Pos() < w.loop.Pos() {
+								sOK = true
+								continue
+							}
+						}
+						bad = true
+					}
+					if w.info.Defs[lid] == iobj { // i := 0
+						if lit, isLit := m.Rhs[k].(*ast.BasicLit); isLit && lit.Value == "0" && m.Pos() < w.loop.Pos() {
+							iOK = true
+							continue
+						}
+						bad = true
+					}
+					continue
+				}
+				if w.info.Uses[lid] == sobj || w.info.Uses[lid] == iobj {
+					bad = true // re-assigned somewhere
+				}
+			}
+		case *ast.IncDecStmt:
+			if id, isId := m.X.(*ast.Ident); isId && w.info.Uses[id] == iobj && m != inc {
+				bad = true
+			}
+		case *ast.UnaryExpr:
+			if id, isId := m.X.(*ast.Ident); isId && m.Op == token.AND && (w.info.Uses[id] == iobj || w.info.Uses[id] == sobj) {
+				bad = true
+			}
+		}
+		return true
+	})
+	// i is read nowhere else in the loop body (only as the index of this store and in this ++); s nowhere else in the body
+	ast.Inspect(w.loop.Body, func(m ast.Node) bool {
+		if id, isId := m.(*ast.Ident); isId && id != iid && id != cid && id != sid {
+			if o := w.info.Uses[id]; o == iobj || o == sobj {
+				bad = true
+			}
+		}
+		return true
+	})
+	if !sOK || !iOK || bad {
+		return ""
+	}
+	e, okE := w.exprIR(as.Rhs[0])
+	if !okE {
+		return ""
+	}
+	return fmt.Sprintf("SFill %s %s %s", q(w.nameOf(sid)), q(w.nameOf(iid)), e)
 }
 
 func (w *walker) stmtIR(s ast.Stmt) []string {
 	switch s := s.(type) {
 	case *ast.AssignStmt:
+		if len(s.Lhs) == 2 && len(s.Rhs) == 1 && s.Tok == token.DEFINE { // v, ok := m[k]  (lookup with presence flag: pure)
+			if ix, isIx := s.Rhs[0].(*ast.IndexExpr); isIx {
+				if t := w.info.TypeOf(ix.X); t != nil {
+					if _, isMap := t.Underlying().(*types.Map); isMap {
+						e, okE := w.exprIR(s.Rhs[0])
+						var outs []string
+						for n, l := range s.Lhs {
+							id, isId := l.(*ast.Ident)
+							if !isId || !okE {
+								return w.other(s)
+							}
+							if id.Name == "_" {
+								continue
+							}
+							if w.info.Defs[id] == nil {
+								return w.other(s)
+							}
+							ex := e
+							if n == 1 { // the presence flag: another function of the same variables
+								ex = strings.Replace(e, "(E "+q(w.norm(s.Rhs[0])), "(E "+q("present("+w.norm(s.Rhs[0])+")"), 1)
+							}
+							outs = append(outs, fmt.Sprintf("SLocal %s %s", q(w.nameOf(id)), ex))
+						}
+						return outs
+					}
+				}
+			}
+			return w.other(s)
+		}
 		if len(s.Lhs) != 1 || len(s.Rhs) != 1 {
 			return w.other(s)
 		}
@@ -1374,21 +1514,19 @@ func (w *walker) sortIR(call *ast.CallExpr) string {
 		return ""
 	}
 	xobj := w.info.Uses[x]
-	fl, ok := call.Args[1].(*ast.FuncLit)
-	if !ok || fl.Body == nil || len(fl.Body.List) != 1 {
-		return other(x)
-	}
-	ret, ok := fl.Body.List[0].(*ast.ReturnStmt)
-	if !ok || len(ret.Results) != 1 {
-		return other(x)
-	}
-	var params []types.Object
-	for _, f := range fl.Type.Params.List {
-		for _, n := range f.Names {
-			params = append(params, w.info.Defs[n])
+	// the comparator: a function literal, or a function of this package given by name
+	var ftype *ast.FuncType
+	var fbody *ast.BlockStmt
+	switch f := call.Args[1].(type) {
+	case *ast.FuncLit:
+		ftype, fbody = f.Type, f.Body
+	case *ast.Ident:
+		if fd, ok := w.funcs[w.info.Uses[f]]; ok {
+			ftype, fbody = fd.Type, fd.Body
 		}
 	}
-	if len(params) != 2 || params[0] == nil || params[1] == nil {
+	params, ret := singleReturn(w, ftype, fbody)
+	if ret == nil || len(params) != 2 {
 		return other(x)
 	}
 	byIndex := strings.HasPrefix(name, "sort.")
@@ -1401,16 +1539,52 @@ func (w *walker) sortIR(call *ast.CallExpr) string {
 			return w.sameVar(e, p)
 		}
 	}
-	// the returned expression: L REL R | cmp(L, R) REL 0 | cmp(L, R) (int comparators)
-	var l, r ast.Expr
-	rel, via := "", ""
-	res := ret.Results[0]
+	c := w.analyseCmp(ret, elem(params[0]), elem(params[1]), !byIndex, 0)
+	if !c.ok {
+		return other(x)
+	}
+	return fmt.Sprintf("SSort %s (CmpKey %s %s %s %s %s)", q(w.nameOf(x)), q(c.rel), q(c.via), q(c.kt), c.ki, c.kj)
+}
+
+// singleReturn: the parameters and the returned expression of a function whose body is one `return e`
+func singleReturn(w *walker, ft *ast.FuncType, body *ast.BlockStmt) ([]types.Object, ast.Expr) {
+	if ft == nil || body == nil || len(body.List) != 1 || ft.Params == nil {
+		return nil, nil
+	}
+	ret, ok := body.List[0].(*ast.ReturnStmt)
+	if !ok || len(ret.Results) != 1 {
+		return nil, nil
+	}
+	var params []types.Object
+	for _, f := range ft.Params.List {
+		for _, n := range f.Names {
+			if w.info.Defs[n] == nil {
+				return nil, nil
+			}
+			params = append(params, w.info.Defs[n])
+		}
+	}
+	return params, ret.Results[0]
+}
+
+type cmpRes struct {
+	rel, via, kt, ki, kj string
+	ok                   bool
+}
+
+// analyseCmp reads a comparator's returned expression:  L REL R  |  cmp(L, R) REL 0  |  cmp(L, R) (int comparators)  |
+// f(A, B) with f a function of this package whose body is one return (read the same way, its parameters standing for A, B).
+// e0 / e1 recognise the first / second element.
+func (w *walker) analyseCmp(res ast.Expr, e0, e1 func(ast.Expr) bool, intCmp bool, depth int) cmpRes {
 	for {
 		if pe, isP := res.(*ast.ParenExpr); isP {
 			res = pe.X
 			continue
 		}
 		break
+	}
+	if depth > 3 {
+		return cmpRes{}
 	}
 	cmpCall := func(e ast.Expr) (*ast.CallExpr, string) {
 		c, ok := e.(*ast.CallExpr)
@@ -1423,6 +1597,8 @@ func (w *walker) sortIR(call *ast.CallExpr) string {
 		}
 		return nil, ""
 	}
+	var l, r ast.Expr
+	rel, via := "", ""
 	switch e := res.(type) {
 	case *ast.BinaryExpr:
 		switch e.Op {
@@ -1431,34 +1607,58 @@ func (w *walker) sortIR(call *ast.CallExpr) string {
 		case token.GTR:
 			rel = ">"
 		default:
-			return other(x)
+			return cmpRes{}
 		}
 		if c, n := cmpCall(e.X); c != nil {
 			if lit, isLit := e.Y.(*ast.BasicLit); !isLit || lit.Value != "0" {
-				return other(x)
+				return cmpRes{}
 			}
 			l, r, via = c.Args[0], c.Args[1], n
 		} else {
 			l, r = e.X, e.Y
 		}
 	case *ast.CallExpr:
-		c, n := cmpCall(e)
-		if c == nil || byIndex {
-			return other(x)
+		if c, n := cmpCall(e); c != nil {
+			if !intCmp {
+				return cmpRes{}
+			}
+			l, r, via, rel = c.Args[0], c.Args[1], n, "<"
+			break
 		}
-		l, r, via, rel = c.Args[0], c.Args[1], n, "<"
+		// a named comparator of this package
+		if id, isId := e.Fun.(*ast.Ident); isId && len(e.Args) == 2 {
+			if fd, ok := w.funcs[w.info.Uses[id]]; ok {
+				params, ret := singleReturn(w, fd.Type, fd.Body)
+				if ret == nil || len(params) != 2 {
+					return cmpRes{}
+				}
+				isP := func(p types.Object) func(ast.Expr) bool { return func(x ast.Expr) bool { return w.sameVar(x, p) } }
+				in := w.analyseCmp(ret, isP(params[0]), isP(params[1]), intCmp, depth+1)
+				if !in.ok {
+					return cmpRes{}
+				}
+				o0, o1 := w.keyTerm(e.Args[0], e0), w.keyTerm(e.Args[1], e1)
+				if !strings.Contains(o0, "KElem") && !strings.Contains(o1, "KElem") {
+					o0, o1 = w.keyTerm(e.Args[0], e1), w.keyTerm(e.Args[1], e0)
+				}
+				in.ki = strings.Replace(in.ki, "KElem", o0, 1)
+				in.kj = strings.Replace(in.kj, "KElem", o1, 1)
+				return in
+			}
+		}
+		return cmpRes{}
 	default:
-		return other(x)
+		return cmpRes{}
 	}
-	ki, kj := w.keyTerm(l, elem(params[0])), w.keyTerm(r, elem(params[1]))
+	ki, kj := w.keyTerm(l, e0), w.keyTerm(r, e1)
 	if !strings.Contains(ki, "KElem") && !strings.Contains(kj, "KElem") { // written the other way round: x[j] < x[i]
-		ki, kj = w.keyTerm(l, elem(params[1])), w.keyTerm(r, elem(params[0]))
+		ki, kj = w.keyTerm(l, e1), w.keyTerm(r, e0)
 	}
 	kt := "?"
 	if t := w.info.TypeOf(l); t != nil {
 		kt = types.TypeString(t, nil)
 	}
-	return fmt.Sprintf("SSort %s (CmpKey %s %s %s %s %s)", q(w.nameOf(x)), q(rel), q(via), q(kt), ki, kj)
+	return cmpRes{rel, via, kt, ki, kj, true}
 }
 
 // ---------------------------------------------------------------------------------------------------
